@@ -31,6 +31,33 @@ ASSUMPTIONS = ["forecasts / observations / end points are multiples of 1/2 or 1/
                "exact); quotients by (b-a), (d-c), 3 compared to 1e-9", "NaN end points are not generated",
                "fcst and obs carry the same coordinates in the same stored order (F11 belongs to C04)",
                "float rounding is not modelled"]
+MANIFEST = dict(
+    level="proof",
+    text="Kernel-checked Lean theorems about definitions regenerated on every run from threshold_weighted_impl.py (_g_j_rect, _phi_j_rect, "
+         "_phi_j_prime_rect, _g_j_trap, _phi_j_trap, _phi_j_prime_trap, the 0.5 / 2 rescalings of the five tw_* wrappers) and "
+         "consistent_impl.py (kernels of consistent_quantile/expectile/huber_score, parameter guards), for all rational forecasts, "
+         "observations, end points, alpha and Huber parameters: g and phi/4 are the first and second antiderivative of the rectangular "
+         "and of the trapezoidal weight on every cell (phi' = 4g); hence tw_quantile_score, tw_absolute_error, tw_expectile_score, "
+         "tw_squared_error and tw_huber_loss equal the exact integral over [min(x,y), max(x,y)] of weight x Murphy elementary score "
+         "(normalisations 1, 2, 2, 4, 2), for both shapes and for infinite end points replaced by any finite value beyond the data; "
+         "weight 1 gives (x-y)^2, |x-y|, pinball, asymmetric squared and Huber loss; two half-lines, and a trapezoid with its two "
+         "complementary ramps, give scores that sum to the unweighted score; consistent_* scores with non-decreasing g / convex phi "
+         "with subgradient phi' are >= 0 and 0 at x = y, and the tw g / phi of both shapes satisfy these hypotheses. Tied to the "
+         "code by the translator plus a differential check of the helpers, the consistent kernels and the whole tw_* pipeline "
+         "(hand model of _auxiliary_funcs) and an independent oracle: Lean Spec integrals evaluated exhaustively on a 7-point lattice "
+         "for x, y and all 114 admissible finite/infinite end-point choices, quadrature of the real murphy_score values, "
+         "partition-of-unity / weight-one / non-negativity relations between implementation runs, scalar vs array vs mixed end points.",
+    note="Trusted: Lean kernel; propext/Classical.choice/Quot.sound; py2lean translator; SV.Fl (IEEE minus rounding, overflow, signed "
+         "zero); the integral is Spec.Quad.integral = open 3-point Newton-Cotes rule on each cell of the kink-complete grid (exact "
+         "for piecewise cubics; not bridged to Mathlib's intervalIntegral). Modelled and only compared (not proved): _auxiliary_funcs "
+         "(validation, replacement of +-inf by min/max(data, other end) -+ 1 over the batch, array / mixed end points) - the "
+         "theorems hold for ANY finite replacement beyond the two data points, that the code's replacement is beyond the data is "
+         "checked by the differential harness. Not modelled: gather_dimensions / apply_weights / mean (scores compared per case with "
+         "preserve_dims='all'), NaN end points, coordinate alignment (C04), float rounding (inputs are dyadic, quotients to 1e-9). "
+         "A `<` <-> `<=` flip at a kink where the pieces agree is recognised as harmless by the tie lemmas.",
+    technique="Lean 4 theorems over translator-regenerated definitions (generic cell-wise antiderivative calculus) + differential "
+              "correspondence + exhaustive lattice oracle against the Lean Spec",
+    design="6/C10")
 RULE = ("cases (x, y, weight shape, end points, alpha, huber parameter): exhaustive over a 7-point lattice for x, y and every "
         "increasing choice of finite / infinite end points from it (all 9 / 25 relative positions incl. equalities), then random "
         "dyadic batches with 50% of values copied from an end point or from the other operand, end points as scalars or as "
@@ -453,7 +480,7 @@ def correspondence(ctx):
     ops, todo = [], []
     corr_helpers(ctx, ops, todo)
     corr_consistent(ctx, ops, todo)
-    batches = pipeline_batches(ctx, ctx.n(120, 1500))
+    batches = pipeline_batches(ctx, ctx.n(60, 700))
     for cfg, fc, ob, alpha, huber, _ in batches:
         ops.append(model_op(fc, ob, cfg, alpha, huber))
     res = core.run_driver("C10", ops)
@@ -515,17 +542,28 @@ def oracle_integral(ctx, boost):
     rng = ctx.rng
     cases = []
     lx, ly = lattice_points()
-    lat_params = [(0.25, 0.5), (0.5, 1.0)] if not (ctx.thorough or boost) else [(0.25, 0.5), (0.5, 1.0), (0.75, 0.25), (0.3, 1.5)]
+    full = ctx.thorough or boost
+    lat_params = [(0.25, 0.5), (0.5, 1.0), (0.75, 0.25), (0.3, 1.5)] if ctx.thorough else [(0.25, 0.5), (0.75, 1.0)]
+    n_scalar = 0
     for shape in ("rect", "trap"):
         cfgs = lattice_configs(shape)
-        for ci, cfg in enumerate(cfgs):
-            a, h = lat_params[ci % len(lat_params)] if not (ctx.thorough or boost) else (None, None)
-            for (al, hu) in ([(a, h)] if a is not None else lat_params):
+        n = len(cfgs[0]["ends"])
+        # (i) every lattice weight at once: end points as arrays over "s" (one row of the batch per weight)
+        packed = {"shape": shape, "ends": [[c["ends"][i] for c in cfgs] for i in range(n)], "dims": [("s",)] * n}
+        px = np.repeat(lx, len(cfgs), axis=0)
+        py = np.repeat(ly, len(cfgs), axis=0)
+        for (al, hu) in (lat_params if full else lat_params[:2]):
+            cases.append((packed, px, py, al, hu))
+        # (ii) the same weights given as scalars, one batch each (quick tier: a random dozen per shape)
+        chosen = cfgs if full else rng.sample(cfgs, 6)
+        for ci, cfg in enumerate(chosen):
+            for (al, hu) in (lat_params if full else [lat_params[ci % 2]]):
                 cases.append((cfg, lx, ly, al, hu))
-    n_lat = len(cases)
-    ctx.exhaustive.append(f"x, y over the 7-point lattice {LATTICE} x every admissible scalar end-point choice from it incl. +-inf "
-                          f"(36 rectangular, 78 trapezoidal weights): {n_lat} batches of 49 cases, 5 scores each")
-    for cfg, fc, ob, alpha, huber, malformed in pipeline_batches(ctx, ctx.n(80, 1200) * (5 if boost else 1), malformed_share=0.0):
+                n_scalar += 1
+    ctx.exhaustive.append(f"x, y over the 7-point lattice {LATTICE} x every admissible end-point choice from it incl. +-inf "
+                          f"(36 rectangular, 78 trapezoidal weights) = 5586 (x, y, weight) triples, 5 scores each, end points as "
+                          f"arrays; {n_scalar} of the (weight, parameter) batches also with scalar end points")
+    for cfg, fc, ob, alpha, huber, malformed in pipeline_batches(ctx, ctx.n(40, 600) * (3 if boost else 1), malformed_share=0.0):
         mask = np.isnan(fc) | np.isnan(ob)
         fc = np.where(mask, 0.0, fc); ob = np.where(mask, 0.0, ob)   # NaN handling belongs to tie X / C02
         cases.append((cfg, fc, ob, alpha, huber))
@@ -551,7 +589,7 @@ def oracle_murphy(ctx, boost):
     norm = {"tw_squared_error": ("expectile", 4, 0.5), "tw_absolute_error": ("quantile", 2, 0.5), "tw_quantile_score": ("quantile", 1, None),
             "tw_expectile_score": ("expectile", 2, None), "tw_huber_loss": ("huber", 2, 0.5)}
     pts = []
-    for _ in range(ctx.n(40, 400) * (3 if boost else 1)):
+    for _ in range(ctx.n(25, 300) * (3 if boost else 1)):
         shape = rng.choice(["rect", "trap"])
         e = gen_scalar_ends(rng, shape)
         cfg = {"shape": shape, "ends": e, "dims": [()] * len(e)}
@@ -613,36 +651,37 @@ def unweighted_reference(fc, ob, alpha, huber):
 def oracle_relations(ctx, boost):
     """weight-one reduction, partition of unity, non-negativity / zero at x = y, scalar vs array end points"""
     rng = ctx.rng
-    n = ctx.n(40, 500) * (4 if boost else 1)
+    n = ctx.n(14, 120) * (2 if boost else 1)
     std_ops, std_cases = [], []
     for it in range(n):
-        Sn, Kn = rng.choice([(1, 3), (2, 3), (3, 2)])
+        Sn, Kn = rng.choice([(2, 4), (3, 3), (4, 2)])
+        names = FUNCS if (ctx.thorough or boost) else rng.sample(FUNCS, 2)
         alpha, huber = rng.choice(ALPHAS), rng.choice(HUBERS)
         a, b, c, d = draw_sorted(rng, 4)
         dummy = {"shape": "trap", "ends": [a, b, c, d], "dims": [()] * 4}
         fc, ob = gen_data(rng, dummy, Sn, Kn, nan_p=0.0, extra=[a + huber, d - huber])
         sc = lambda e: {"shape": "rect" if len(e) == 2 else "trap", "ends": e, "dims": [()] * len(e)}
-        one = impl_all(fc, ob, sc([-INF, INF]), alpha, huber)
-        one_t = impl_all(fc, ob, sc([-INF, -INF, INF, INF]), alpha, huber)
+        one = impl_all(fc, ob, sc([-INF, INF]), alpha, huber, names)
+        one_t = impl_all(fc, ob, sc([-INF, -INF, INF, INF]), alpha, huber, names)
         # --- weight one = the standard scores (Spec closed forms + the library's own mse / mae / quantile_score)
         for x, y in zip(fc.ravel(), ob.ravel()):
             std_ops.append({"op": "c10.std", "args": {"x": S(x), "y": S(y), "alpha": S(alpha), "huber": S(huber)}})
-        std_cases.append((fc, ob, alpha, huber, one, one_t))
+        std_cases.append((fc, ob, alpha, huber, one, one_t, names))
         # --- partition of unity: two half-lines at b
-        left = impl_all(fc, ob, sc([-INF, b]), alpha, huber)
-        right = impl_all(fc, ob, sc([b, INF]), alpha, huber)
+        left = impl_all(fc, ob, sc([-INF, b]), alpha, huber, names)
+        right = impl_all(fc, ob, sc([b, INF]), alpha, huber, names)
         # --- trapezoid + its two complementary ramps
-        mid = impl_all(fc, ob, sc([a, b, c, d]), alpha, huber)
-        lramp = impl_all(fc, ob, sc([-INF, -INF, a, b]), alpha, huber)
-        rramp = impl_all(fc, ob, sc([c, d, INF, INF]), alpha, huber)
+        mid = impl_all(fc, ob, sc([a, b, c, d]), alpha, huber, names)
+        lramp = impl_all(fc, ob, sc([-INF, -INF, a, b]), alpha, huber, names)
+        rramp = impl_all(fc, ob, sc([c, d, INF, INF]), alpha, huber, names)
         # --- the same end points as arrays
         arr_cfg = {"shape": "trap", "ends": [np.full((Sn,), v).tolist() for v in (a, b, c, d)], "dims": [("s",)] * 4}
-        mid_arr = impl_all(fc, ob, arr_cfg, alpha, huber)
+        mid_arr = impl_all(fc, ob, arr_cfg, alpha, huber, names)
         case = {"fcst": fc.tolist(), "obs": ob.tolist(), "a": a, "b": b, "c": c, "d": d, "alpha": alpha, "huber": huber}
         ctx.case("partition-of-unity", case)
         ctx.case("nonnegative-zero-at-equality", case)
         ctx.case("scalar-vs-array-end-points", case)
-        for nme in FUNCS:
+        for nme in names:
             vals = [one[nme], one_t[nme], left[nme], right[nme], mid[nme], lramp[nme], rramp[nme], mid_arr[nme]]
             bad = [v for v in vals if isinstance(v, Exception)]
             if bad:
@@ -675,12 +714,12 @@ def oracle_relations(ctx, boost):
                              observed=v.tolist(), expected="0 where fcst == obs", tags={"function": nme}, theorem="tw_zero_at_equality")
     std = core.run_driver("C10spec", std_ops)
     k = 0
-    for fc, ob, alpha, huber, one, one_t in std_cases:
+    for fc, ob, alpha, huber, one, one_t, names in std_cases:
         m = fc.size
         rows = std[k:k + m]; k += m
         ref = unweighted_reference(fc, ob, alpha, huber)
         ctx.case("weight-one-reduction", {"fcst": fc.tolist(), "obs": ob.tolist(), "alpha": alpha, "huber": huber})
-        for nme in FUNCS:
+        for nme in names:
             got = one[nme]
             if isinstance(got, Exception):
                 continue   # reported above
